@@ -4,6 +4,7 @@ import (
 	"cmp"
 	"encoding/json"
 	"fmt"
+	"math"
 	"strconv"
 	"testing"
 
@@ -314,11 +315,15 @@ func genLen(t *rapid.T, label string) int {
 }
 
 func genInts(t *rapid.T, label string, n int) []int {
-	shape := rapid.IntRange(0, 5).Draw(t, label+"Kind")
+	shape := rapid.IntRange(0, 6).Draw(t, label+"Kind")
 	out := make([]int, n)
 	elem := rapid.IntRange(-3, 6)
 	if shape == 5 {
 		elem = rapid.IntRange(-1000000, 1000000)
+	}
+	if shape == 6 {
+		// the ends of the int range: differences and sums of two elements overflow
+		elem = rapid.SampledFrom([]int{math.MinInt64, math.MinInt64 + 1, -(1 << 62), -2, -1, 0, 1, 2, 1 << 62, math.MaxInt64 - 1, math.MaxInt64})
 	}
 	for i := range out {
 		out[i] = elem.Draw(t, label)
